@@ -239,7 +239,7 @@ func genC20(t *rapid.T) c20Case {
 func init() { register("C20", checkC20) }
 
 func TestC20(t *testing.T) {
-	runProp(t, "C20", checkC20, nil, part[c20Case]{"bodies", scale(1200, 12000), genC20})
+	runProp(t, "C20", checkC20, nil, part[c20Case]{"bodies", scale(3000, 12000), genC20})
 }
 
 // FuzzC20: coverage-guided bodies (thorough tier).
